@@ -242,6 +242,51 @@ void profile_blast(RunCtx& ctx)
             // construction); a truncation or token deletion may instead yield a *well-formed* label with another meaning
             // (ch1! -> ch1 turns an I/O synchronisation into a CSP one), whose conflict with other labels is
             // rightly reported where the type checker meets it
+            // A purely semantic fault (type error) leaves the builder without errors, so the type checker runs: what it
+            // annotates and reports for every *other* label must be what it annotates and reports without the fault.
+            if (!b.declaring() && (site.fault == TF_CHAN_ARITH || site.fault == TF_BAD_TERNARY || site.fault == TF_SIDE_EFFECT) &&
+                ref_doc.doc) {
+                DumpOpts o;
+                o.diagnostics = false;
+                o.mask_templ = b.templ;
+                o.mask_elem = (b.kind == BlockRef::INV || b.kind == BlockRef::RATE) ? 'L' : 'E';
+                o.mask_index = b.index;
+                o.mask_field = b.field();
+                o.mask_path = bx;
+                o.typechecked_only = true;
+                std::string want = dump_document(*ref_doc.doc, o);
+                std::string got = dump_document(*s.doc, o);
+                ctx.count("c16-comparisons");
+                ctx.count("c16-typechecked-comparisons");
+                if (want != got) {
+                    std::string d = first_diff(want, got);
+                    std::string kind = first_word(d.substr(d.find('[') + 1));
+                    if (ctx.violation("C16", "fault-disturbs-rest", "c16|typechecked|" + block_sig(b) + "|" + fname + "|" + kind,
+                                      where + ": after type checking, the document outside the faulted label differs from the fault-free one: " + d +
+                                          "; text: " + fr.text))
+                        return;
+                }
+                // diagnostics of other blocks must be those of the fault-free load
+                std::multiset<std::string> base;
+                for (auto& d : view_diagnostics(*ref_doc.doc))
+                    if (d.path != bx)
+                        base.insert(d.path + "|" + d.msg);
+                std::multiset<std::string> mine;
+                for (auto& d : view_diagnostics(*s.doc))
+                    if (d.path != bx)
+                        mine.insert(d.path + "|" + d.msg);
+                if (mine != base) {
+                    std::string what = "diagnostics of the other blocks differ:";
+                    for (auto& x : base)
+                        if (!mine.count(x))
+                            what += " missing[" + x + "]";
+                    for (auto& x : mine)
+                        if (!base.count(x))
+                            what += " extra[" + x + "]";
+                    if (ctx.violation("C16", "diagnostic-in-other-block", "c16|typechecked-diags|" + block_sig(b) + "|" + fname, where + ": " + what + "; text: " + fr.text))
+                        return;
+                }
+            }
             if (!b.declaring() && fr.guaranteed_error && nerr > in_block) {
                 if (ctx.violation("C06", "error-attributed-elsewhere", "c06b|elsewhere|" + block_sig(b) + "|" + fname,
                                   where + ": error outside the faulted non-declaring label: " + stray + "; text: " + fr.text))
